@@ -669,6 +669,65 @@ NESTED_FORMS = {
 }
 
 
+def entry_points_sweep(ctx, h, db, E, H, w):
+    """every entity-level retrieval entry point on EVERY class (root, middle, leaf): select_random(n), select().random(n), exists / get / [] by
+    key for every stored object, select_by_sql / get_by_sql without a key restriction, prefetch — exactly stored objects of that entity and
+    its subclasses, with their classes"""
+    import random as _random
+    _random.seed(ctx.seed * 1000003 + h['n'])                 # Pony draws the random primary keys from the global generator
+    ck = Checker(ctx, h, db, E, H, w); ck.trace.append('entry-points-sweep')
+    n = h['n']
+    def verdict(kind, det, f):
+        try:
+            with db_session: f()
+        except Exception as e:
+            ck.fail(kind, 'the entry point %s raised %s' % (kind, type(e).__name__), det + [str(e)[:120]], 'raised ' + type(e).__name__, 'stored objects of the entity')
+    for c in range(n):
+        root = h['root'][c]; ext = sorted(ck.extent(c)); table = sorted(pk for (rt, pk) in w.cls if rt == root)
+        role = 'root' if not h['bases'][c] else 'leaf' if not any(c in h['bases'][j] for j in range(n)) else 'middle'
+        for limit in (1, 2, 3):
+            for how in ('select_random', 'select().random'):
+                def run(limit=limit, how=how):
+                    for trial in range(6 if how == 'select_random' else 2):
+                        objs = list(E[c].select_random(limit) if how == 'select_random' else E[c].select().random(limit))
+                        got = sorted((o.id, type(o).__name__) for o in objs)
+                        ctx.case(['random', h['bases'], h['mode'], ck.name(c), how, limit, trial], kind='oracle:entry:%s:%s' % (how, role))
+                        ok = len(got) == min(limit, len(ext)) and len(set(got)) == len(got) and all(pk in ext and nm == ck.name(w.cls[(root, pk)]) for pk, nm in got)
+                        if not ok:
+                            ck.fail('select-random', '%s.%s(%d) does not return min(n, count) distinct stored objects of the entity and its subclasses (table has %d rows)'
+                                    % (ck.name(c), how, limit, len(table)), [ck.name(c), how, limit, 'extent', ext], got, 'min(%d, %d) objects out of %r' % (limit, len(ext), ext))
+                            return
+                verdict('select-random', [ck.name(c), how, limit], run)
+        def by_key():
+            for pk in table:
+                member = pk in ext
+                ctx.case(['exists', h['bases'], ck.name(c), pk], kind='oracle:entry:exists:' + ('member' if member else 'non-member'))
+                got = E[c].exists(id=pk)
+                if got != member: ck.fail('exists', '%s.exists(id=pk) is %r for an object stored as %s' % (ck.name(c), got, ck.name(w.cls[(root, pk)])), [ck.name(c), pk], got, member)
+        verdict('exists', [ck.name(c)], by_key)
+        def by_sql():
+            cols = []
+            for attr in itertools.chain(E[c]._attrs_with_columns_, E[c]._subclass_attrs_): cols += [col for col in attr.columns if col not in cols]
+            crit = E[c]._construct_discriminator_criteria_()
+            # the caller's own SQL decides which rows come back: restrict it to the entity's discriminator values, then every row must get its class
+            where = '' if crit is None else ' where "%s" in (%s)' % (crit[1][2], ', '.join(repr(v[1]) for v in crit[2]))
+            objs = E[c].select_by_sql('select %s from %s%s' % (', '.join('"%s"' % x for x in cols), E[c]._table_, where))
+            ck.check_set('select-by-sql-all', objs, root, ext, [ck.name(c)])
+        verdict('select-by-sql-all', [ck.name(c)], by_sql)
+        def prefetch():
+            objs = E[c].select().prefetch(E[0].h_mrefs)[:] if root == 0 else E[c].select()[:]
+            ck.check_set('select-prefetch', objs, root, ext, [ck.name(c)])
+        verdict('select-prefetch', [ck.name(c)], prefetch)
+    def holder_prefetch():
+        hs = select('hh for hh in H', {'H': H}).prefetch(H.mref, H.refs0, H.many)[:]
+        for hh in hs:
+            v = w.holders[hh.id]
+            if v['mref'] is not None: ck.check_type('prefetch-mref', hh.mref, 0, [hh.id])
+            ck.check_set('prefetch-m2m', list(hh.refs0), 0, v['refs0'], [hh.id])
+            ck.check_set('prefetch-o2m', list(hh.many), 0, v['many'], [hh.id])
+    verdict('prefetch', [], holder_prefetch)
+
+
 def two_variables_sweep(ctx, h, db, E, H, w):
     """every pair of classes of one tree as the two loop variables of one query"""
     ck = Checker(ctx, h, db, E, H, w); ck.trace.append('two-variables-sweep')
@@ -785,6 +844,7 @@ def one_world(ctx, h, reqs, checks):
         navigated_sweep(ctx, h, db, E, H, w)
         cached_lookup_sweep(ctx, h, db, E, H, w)
         two_variables_sweep(ctx, h, db, E, H, w)
+        entry_points_sweep(ctx, h, db, E, H, w)
         refine_tie(ctx, h, db, E, code, w, reqs, checks)
     finally:
         db.disconnect()
